@@ -179,7 +179,15 @@ static bool rewrite(const uint8_t *p, size_t n, Bytes &o, Rng &rng, const VarCfg
                 for(unsigned q = 0; q < nadd; q++) {
                     static const uint8_t u1[] = {0xbf, 0x4d, 0x01, 0x00}, u2[] = {0x9f, 0x4e, 0x03, 0x61, 0x62, 0x63}, u3[] = {0xbf, 0x4f, 0x05, 0x30, 0x03, 0x02, 0x01, 0x07};
                     const uint8_t *u = q == 0 ? (rng.chance(1, 2) ? u1 : u2) : u3; size_t ul = u == u1 ? sizeof u1 : u == u2 ? sizeof u2 : sizeof u3;
-                    if(u == u1) { inner.push_back(0x9f); inner.push_back(0x4d); inner.push_back(0x01); inner.push_back(0x00); }
+                    if(rng.chance(1, 3)) {
+                        // the unknown addition itself in indefinite-length form, nested 0..3 deep (skipped through ber_skip_length)
+                        unsigned d = (unsigned)rng.below(4);
+                        inner.push_back(0xbf); inner.push_back(0x50); inner.push_back(0x80);
+                        for(unsigned z = 0; z < d; z++) { inner.push_back(0x30); inner.push_back(0x80); }
+                        inner.push_back(0x02); inner.push_back(0x01); inner.push_back(0x07);
+                        for(unsigned z = 0; z < d + 1; z++) { inner.push_back(0x00); inner.push_back(0x00); }
+                    }
+                    else if(u == u1) { inner.push_back(0x9f); inner.push_back(0x4d); inner.push_back(0x01); inner.push_back(0x00); }
                     else inner.insert(inner.end(), u, u + ul);
                 }
                 vs.unknown_ext++;
